@@ -145,17 +145,26 @@ fn one(ci: usize, plan: &Value, di: usize, table: &Table, dir: &str) -> Value {
     } else {
         doc.spans.get(a + 1).map(|s| s.1 as i64 + delta).unwrap_or(text.len() as i64)
     };
-    let path = format!("{dir}/case{ci}_{di}.asn");
+    // every seventh file source has a name that is not UTF-8 (a Latin-1 e-acute): the report then carries the lossy form
+    let os_path: std::path::PathBuf = if (ci + di) % 7 == 3 {
+        use std::os::unix::ffi::OsStrExt;
+        let mut b = format!("{dir}/case{ci}_{di}-").into_bytes();
+        b.extend_from_slice(b"\xE9.asn");
+        std::path::PathBuf::from(std::ffi::OsStr::from_bytes(&b))
+    } else {
+        std::path::PathBuf::from(format!("{dir}/case{ci}_{di}.asn"))
+    };
+    let path = os_path.to_string_lossy().to_string();
     let mut ev = json!({"ev": "errpos", "case": ci, "doc": di, "plan": plan, "len": text.len(), "lower": lower, "upper": upper,
                         "is_file": file, "status": "", "offset": -1, "line": -1, "lf_before": -1, "column": -1,
                         "display_line": -1, "ctx_line": -1, "ctx_text_same": true, "ctx_panicked": false, "src_file": "", "display": "",
                         "asn": text.get(lower.min(text.len())..).map(|x| x.chars().take(160).collect::<String>()).unwrap_or_default().replace('\r', "\\r").replace('\n', "\\n")});
     if file {
-        std::fs::write(&path, &text).unwrap();
+        std::fs::write(&os_path, &text).unwrap();
     }
     let r = catch_unwind(AssertUnwindSafe(|| {
         if file {
-            Compiler::<RasnBackend, _>::new().add_asn_by_path(&path).compile_to_string()
+            Compiler::<RasnBackend, _>::new().add_asn_by_path(&os_path).compile_to_string()
         } else {
             Compiler::<RasnBackend, _>::new().add_asn_literal(text.clone()).compile_to_string()
         }
@@ -196,7 +205,7 @@ fn one(ci: usize, plan: &Value, di: usize, table: &Table, dir: &str) -> Value {
         }
     }
     if file {
-        let _ = std::fs::remove_file(&path);
+        let _ = std::fs::remove_file(&os_path);
         ev["path"] = json!(path);
     }
     ev
